@@ -164,6 +164,8 @@ module.exports = function (repo, loadPrelude) {
     for (const c of Object.keys(TA)) if (v.constructor === TA[c]) return 'ta_' + c + '(' + Array.from(v).map(showNum).join(',') + ')';
     if (v.constructor === R.Array) return 'ja(' + Array.prototype.map.call(v, showJs).join(',') + ')';
     if (Array.isArray(v)) return '?foreign-array';
+    if (v.constructor === R.jsObjectPtr) // a leaked js.Object wrapper struct: an object whose property `object` holds the value
+      return 'jo(w006f0062006a006500630074,' + showJs(v.object) + ')';
     if (v.__internal_object__ !== undefined) { const io = v.__internal_object__; return io && io.constructor === R.Opaque ? 'wr' + io.$val : '?wrapper'; }
     if (Object.getPrototypeOf(v) !== Object.getPrototypeOf(R.newObject())) return '?object:' + (v.constructor && v.constructor.name);
     const ks = Object.keys(v).sort((a, b) => { // by UTF-16 code units, shorter first on equal prefix
@@ -207,7 +209,11 @@ module.exports = function (repo, loadPrelude) {
         for (let i = 0; i < x.args.length; i += 2) { const k = U.hexToStr(x.args[i].name.slice(1)); m.set(T.key.keyFor(k), { k: k, v: buildGo(x.args[i + 1], T.elem) }); }
         return m;
       }
-      case 'st': return new T.ptr(...x.args.map((a, i) => buildGo(a, T.fields[i].typ)));
+      case 'st': { // fields are assigned one by one: the generic constructor of $structType replaces `undefined` by the zero value
+        const st = new T.ptr();
+        x.args.forEach((a, i) => { st[T.fields[i].prop] = buildGo(a, T.fields[i].typ); });
+        return st;
+      }
       case 'pt': {
         if (T.elem.kind === KIND.Struct) return buildGo(x.args[0], T.elem);
         let cell = buildGo(x.args[0], T.elem);
